@@ -50,10 +50,17 @@ func c07Body(k int) ([]byte, bool) {
 
 func c07ExpectPath(esc, strip, prepend string) string {
 	p := esc
-	if strip != "" && strings.HasPrefix(p, strip) {
-		p = p[len(strip):]
-		if !strings.HasPrefix(p, "/") {
-			p = "/" + p
+	if dec, err := url.PathUnescape(esc); strip != "" && err == nil && strings.HasPrefix(dec, strip) {
+		// the route's strip value is plain text; the part of the escaped path that spells it - however the
+		// client escaped it - goes, the rest keeps the client's encoding
+		for i := 0; i <= len(esc); i++ {
+			if d, err := url.PathUnescape(esc[:i]); err == nil && d == strip {
+				p = esc[i:]
+				if !strings.HasPrefix(p, "/") {
+					p = "/" + p
+				}
+				break
+			}
 		}
 	}
 	if prepend != "" {
@@ -82,7 +89,7 @@ func c07Sig(kind string, c c07Case) string {
 
 func TestVerifC07Request(t *testing.T) {
 	L := ev.Begin("C07", "c07-request", "exploration",
-		"full product method x path (incl. %2F, %20, //, prefix-sharing) x query x header set (custom, duplicate, lower-case, auth/cookie) x body (none, 1B, 70kB, chunked) x strip x prepend (incl. one that needs escaping itself) x host option x target query x client Host spelling (plain, :80, :8080, mixed case), each parsed with net/http's request parser and served by the real HTTPProxy.ServeHTTP + ReverseProxy to a real upstream that records method, request-target, Host, headers and body; oracle = rewrite rules of the statement applied to the escaped path. non-trivial = case with a rewrite option or encoded path")
+		"full product method x path (incl. %2F, %20, //, prefix-sharing) x query x header set (custom, duplicate, lower-case, auth/cookie) x body (none, 1B, 70kB, chunked) x strip (incl. a prefix the client spells with an escape, and a strip value that needs escaping itself) x prepend (incl. one that needs escaping itself) x host option x target query x client Host spelling (plain, :80, :8080, mixed case), each parsed with net/http's request parser and served by the real HTTPProxy.ServeHTTP + ReverseProxy to a real upstream that records method, request-target, Host, headers and body; oracle = rewrite rules of the statement applied to the escaped path. non-trivial = case with a rewrite option or encoded path")
 	methods := []string{"GET", "POST", "HEAD"}
 	if ev.Thorough() {
 		methods = []string{"GET", "HEAD", "POST", "PUT", "DELETE", "OPTIONS"}
@@ -115,6 +122,12 @@ func TestVerifC07Request(t *testing.T) {
 				}
 			}
 		}
+	}
+	// a strip prefix the client spells with an escape of its own, and a strip value that itself needs escaping
+	for _, pp := range []string{"", "/p"} {
+		cases = append(cases, c07Case{"GET", "/f%6Fo/x%2Fy", "a=1", 0, 0, "/foo", pp, "", ""})
+		cases = append(cases, c07Case{"GET", "/%C3%A4/x%2Fy", "a=1", 0, 0, "/\u00e4", pp, "", ""})
+		cases = append(cases, c07Case{"GET", "/%C3%A4/x", "", 0, 0, "/\u00e4", pp, "", ""})
 	}
 	// a prepend value that itself needs escaping on the wire
 	for _, p := range paths {
